@@ -927,3 +927,113 @@ func collectorsNeverStop(c *Check, rule string, fns []*ssa.Function) int {
 	}
 	return n
 }
+
+// noRetainedLoopVarAddress: a variable that lives across the iterations of a loop and is assigned anew in each of them
+// (a range / for variable under the pre-1.22 semantics of this module's go directive, or a variable declared before
+// the loop) never has its address kept beyond the iteration — stored in a map, slice, struct or captured by a stored
+// closure: every kept pointer would name the one variable, i.e. the value of the last iteration.
+func noRetainedLoopVarAddress(c *Check, rule string, fns []*ssa.Function) int {
+	n := 0
+	for _, fn := range fns {
+		if len(fn.Blocks) == 0 || isGeneratedFn(c.P, fn) {
+			continue
+		}
+		fa := c.P.FA(fn)
+		for _, b := range fn.Blocks {
+			for _, ins := range b.Instrs {
+				a, ok := ins.(*ssa.Alloc)
+				if !ok || c.P.IsClone(a) || fa.inCycle(b) || a.Referrers() == nil {
+					continue
+				}
+				assignedInLoop := false
+				for _, r := range *a.Referrers() {
+					if st, ok := r.(*ssa.Store); ok && st.Addr == ssa.Value(a) && fa.inCycle(st.Block()) && !c.P.IsClone(st) {
+						assignedInLoop = true
+					}
+				}
+				if !assignedInLoop {
+					continue
+				}
+				n++
+				var kept ssa.Instruction
+				var visit func(p ssa.Value, depth int)
+				visit = func(p ssa.Value, depth int) {
+					if p.Referrers() == nil || depth > 3 {
+						return
+					}
+					for _, r := range *p.Referrers() {
+						if !fa.inCycle(r.Block()) {
+							continue
+						}
+						switch t := r.(type) {
+						case *ssa.Store:
+							if t.Val == p && t.Addr != ssa.Value(a) && keepsBeyondCall(t.Addr) {
+								kept = t
+							}
+						case *ssa.MapUpdate:
+							if t.Value == p || t.Key == p {
+								kept = t
+							}
+						case *ssa.MakeInterface:
+							visit(t, depth+1)
+						case *ssa.FieldAddr:
+							if t.X == p {
+								visit(t, depth+1)
+							}
+						case *ssa.IndexAddr:
+							if t.X == p {
+								visit(t, depth+1)
+							}
+						case *ssa.MakeClosure:
+							visit(t, depth+1)
+						case *ssa.Go, *ssa.Defer:
+							kept = r
+						}
+					}
+				}
+				visit(a, 0)
+				name := a.Comment
+				if name == "" {
+					name = "variable"
+				}
+				pos := a.Pos()
+				if kept != nil {
+					pos = kept.Pos()
+				}
+				c.Req(kept == nil, rule, funcName(fn)+"/"+name, pos, "address not kept across iterations",
+					"the address of "+name+", one variable for all iterations of the loop (go directive below 1.22), is kept beyond the iteration: every kept pointer sees the value of the last iteration")
+			}
+		}
+	}
+	return n
+}
+
+// keepsBeyondCall: a store through this address outlives the statement: anything but the backing array of a variadic
+// argument list that is handed to a call other than append.
+func keepsBeyondCall(addr ssa.Value) bool {
+	ia, ok := addr.(*ssa.IndexAddr)
+	if !ok {
+		return true
+	}
+	arr, ok := ia.X.(*ssa.Alloc)
+	if !ok || arr.Referrers() == nil {
+		return true
+	}
+	for _, r := range *arr.Referrers() {
+		sl, ok := r.(*ssa.Slice)
+		if !ok || sl.Referrers() == nil {
+			continue
+		}
+		for _, u := range *sl.Referrers() {
+			call, ok := u.(ssa.CallInstruction)
+			if !ok {
+				return true
+			}
+			if bi, ok := call.Common().Value.(*ssa.Builtin); ok && bi.Name() == "append" {
+				return true
+			}
+		}
+		return false
+	}
+	return true
+}
